@@ -122,7 +122,85 @@ def units(tier):
             us.append((tname, rec_kind))
     us.append(('dict-path',))
     us.append(('two-parsers',))
+    us.append(('containers-and-files',))
     return us
+
+
+def containers_and_files_unit(rec, tier):
+    """(a) The container the values arrive in does not matter: a tuple or a numpy array of the same values
+    gives the same record as a list (all-real records; the library itself passes arrays for initial
+    conditions and diffusion rows).  (b) The file route: a record refused by write_values() (ValueError) must
+    leave nothing in the file - the records written before and after it through the same parser must each
+    be on a line of their own and parse back."""
+    import io
+    import numpy as np
+    n = 0
+    exps = QUICK_EXP if tier == 'quick' else range(-120, 121, 3)
+    for tname, parser in tables().items():
+        for rec_kind, (names, fmts) in parser.specification.items():
+            cols, width = ref_columns(fmts)
+            kinds = [split_fmt(f)[0] for f in fmts]
+            good = [sentinel(*split_fmt(f)[:2], pos=j) for j, f in enumerate(fmts)]
+            # (a) containers
+            if all(k in 'efg' for k in kinds):
+                for i, f in enumerate(fmts):
+                    for e in exps:
+                        for m in (1.5, -1.5, 9.999999999999999, -9.999999999999999):
+                            vals = list(good)
+                            vals[i] = float('%re%d' % (m, e))
+                            ref = None
+                            for cname, cont in (('list', list), ('tuple', tuple), ('ndarray', lambda v: np.array(v, dtype=float))):
+                                try:
+                                    out = ('ok', parser.write_values_to_string(cont(vals), rec_kind))
+                                except core.CaseTimeout:
+                                    raise
+                                except Exception as ex:
+                                    out = ('raises', type(ex).__name__)
+                                n += 1
+                                if cname == 'list':
+                                    ref = out
+                                elif out != ref:
+                                    rec.violation('C02|%s|%s|%d:%s|%s|container-changes-record|%s|%s' % (tname, rec_kind, i, names[i], f, cname, vclass('e', vals[i])),
+                                                  'values %r written from a %s give %r, from a list %r' % (vals[i], cname, out, ref),
+                                                  {'containers': tname, 'record': rec_kind, 'field': i, 'value': repr(vals[i])})
+            # (b) refused record in a file
+            for i, f in enumerate(fmts):
+                typ, w, prec, left = split_fmt(f)
+                if typ == 'x':
+                    continue
+                bad = list(good)
+                bad[i] = {'d': 10 ** w, 's': 'Q' * (w + 1)}.get(typ, 1e300 if typ == 'f' else None)
+                if bad[i] is None:
+                    continue       # e-format reals always fit (precision is reduced)
+                parser.file = io.StringIO()
+                refused = False
+                try:
+                    parser.write_values(good, rec_kind)
+                    try:
+                        parser.write_values(bad, rec_kind)
+                    except core.CaseTimeout:
+                        raise
+                    except Exception:
+                        refused = True
+                    parser.write_values(good, rec_kind)
+                except core.CaseTimeout:
+                    raise
+                except Exception as ex:
+                    rec.violation('C02|%s|%s|%d:%s|%s|file-route-raises' % (tname, rec_kind, i, names[i], f), repr(ex),
+                                  {'file_route': tname, 'record': rec_kind, 'field': i})
+                    continue
+                n += 1
+                if not refused:
+                    continue       # judged by the record-level units
+                lines = parser.file.getvalue().split('\n')
+                line = parser.write_values_to_string(good, rec_kind)
+                if [l for l in lines if l != ''] != [line, line]:
+                    rec.violation('C02|%s|%s|%d:%s|%s|refused-record-leaves-partial-line' % (tname, rec_kind, i, names[i], f),
+                                  'after a refused record the file holds %r instead of the two complete records' % lines[:3],
+                                  {'file_route': tname, 'record': rec_kind, 'field': i})
+    rec.bulk(n, [('containers-and-files', n)], outcome='containers-and-files')
+    rec.count('container_and_file_cases', n)
+    rec.sample({'containers_and_files': 'all-real records written from list / tuple / ndarray; a refused record between two good ones in one file', 'cases': n})
 
 
 def two_parsers_unit(rec):
@@ -387,6 +465,8 @@ def vclass(typ, val):
 def run_unit(unit, tier, rec):
     if unit[0] == 'two-parsers':
         return two_parsers_unit(rec)
+    if unit[0] == 'containers-and-files':
+        return containers_and_files_unit(rec, tier)
     if unit[0] == 'dict-path':
         # the dictionary route (write_value_line / read_value_line) used for PARAM, MULTI, LINEQ, SOLVR,
         # TIMES.1, ROCKS.1.1, mesh-maker, incon timing and MULgraph header records
@@ -456,6 +536,10 @@ def run_unit(unit, tier, rec):
 
 
 def replay(case):
+    if 'containers' in case or 'file_route' in case:
+        r = core.Rec()
+        containers_and_files_unit(r, 'quick')
+        return [(sig, e['what']) for sig, e in r.viol.items()]
     if 'two_parsers' in case or 'two_tables' in case:
         r = core.Rec()
         two_parsers_unit(r)
